@@ -59,6 +59,30 @@ CLAIMED = {
          "Exhaustive short and random long histories of set_userinfo/set_host/set_port (incl. removal, longer/shorter/IP-literal/non-ASCII values) are applied through one handle with the handle's view checked after every call, through a fresh handle per call, and on RiBuf, for every authority shape and following component; the enclosing text must differ from the original only in the authority.",
          "Trusted: the (userinfo?, host, port?) record model.",
          "DESIGN.md 5 C11"),
+ "C04": ("runtime invariant monitor: UTF-8 + re-parse + accessor sweep after every call of exhaustive/random mutation histories (native; Miri and ASan stages in thorough)",
+         "Exhaustive short and random long histories over ~47 (operation x argument-class) letters - all setters, authority-handle edits, path edits, in-place resolution - are applied to RiRefBuf, RiBuf and PathBuf of both families obtained by every route (parsed, Default, from_scheme, cloned, converted); after EACH call the bytes must be UTF-8, valid for the same type by the RFC model and by the library's checked constructor, and every read accessor plus tripwire consumers must run without panicking. Distinct abstract states and transitions are counted.",
+         "Trusted: RFC recogniser. Native monitors see library-level invariants; thorough adds Miri/ASan runs of a subset for UB that the invariants do not anticipate.",
+         "DESIGN.md 5 C04"),
+ "C13": ("runtime monitor: every conversion between the eight types vs RFC model, plus URI/IRI family lock-step differential on ASCII inputs",
+         "Every as_*/into_*/try_into_*/TryFrom/From/AsRef conversion is executed on valid values of both families and on mutants; success must coincide with the model's verdict for the target type, keep the text, and failures must hand the original back. On ASCII inputs the two families are run in lock-step (components, authority parts, segments, normalisation, ==, cmp, hash, base, suffix, relative_to, resolution, random edit histories) and must produce identical observations.",
+         "Trusted: RFC recogniser.",
+         "DESIGN.md 5 C13"),
+ "C14": ("runtime monitor: every textual route in/out incl. serde_json round trips vs RFC model, all 20 types",
+         "For valid values and mutants (about half invalid) of all 20 types: Display, Debug, as_str/as_bytes, into_string/into_bytes, to_owned, Clone, AsRef, From and serde_json::to_string must give exactly the parsed text; == with str/&str/String/[u8] must be plain text equality (also probed with an equivalent-but-different spelling); FromStr, TryFrom, from_vec and serde_json::{from_str, from_slice} into owned and borrowed forms (plain and fully \\u-escaped JSON, non-strings, ill-formed UTF-8) must accept exactly what the model accepts.",
+         "Trusted: RFC recogniser; serde_json.",
+         "DESIGN.md 5 C14"),
+ "C15": ("runtime monitor: relative_to then resolved round trip, judged by model equivalence and the library's ==",
+         "a.relative_to(b) is executed on a structured product and on random pairs of full URIs/IRIs (same/different scheme and authority, every prefix relation, trailing slashes, dot/empty segments, queries/fragments); the result must be a valid reference of the family and resolve against b to a value equal to a both by the model equivalence and by the library's ==; no call may panic.",
+         "Trusted: model equivalence and resolver. Two known findings (inherent conflict with C07's equivalence for unspellable sequences; consequence of the C06 finding) are keyed in known_findings.json.",
+         "DESIGN.md 5 C15"),
+ "C16": ("runtime differential monitor: suffix/base vs model on normalized segment sequences and Appendix-B path",
+         "Path/RiRef/Ri::suffix is executed on (value, prefix) pairs built by cutting and perturbing paths, schemes and authorities and compared with a model (existence, remaining segments modulo shield, prefix++suffix == value, query/fragment pointer-identical); base() is compared with the text up to the last '/' of the Appendix-B path and re-validated.",
+         "Trusted: model of normalized sequences and Appendix-B splitter.",
+         "DESIGN.md 5 C16"),
+ "C18": ("runtime differential monitor: borrowed (re-scanning) vs owned (offset-storing) data URL views, reassembly, independent base64 codec",
+         "All strings up to a symbol bound after 'data:' plus structured and random cases are given to every borrowed and owned constructor (which must agree); accepted values must be valid URIs of the data shape (checked by the model before any scanning accessor runs), borrowed and owned parts/media_type/is_base_64_encoded/encoded_data/decoded_data must be identical and reassemble the text, and decoded data is compared with an independent RFC 4648 codec.",
+         "Trusted: harness base64 codec (RFC 4648 vectors at start-up).",
+         "DESIGN.md 5 C18"),
 }
 
 PENDING = {}
